@@ -96,10 +96,16 @@ func VerifR3SnapshotVsReplay() {
 	// snapshot; mode 1: A edits once, the snapshot-fed replica edits after;
 	// mode 2 (thorough, reduced index alphabet): A twice, B once
 	// concurrently, then S and A concurrently after the snapshot.
-	mode := zzvsym.IntRange("mode", 0, 1+zzvsym.Tier())
+	// mode 3: A and B edit once concurrently, so that the log holds a
+	// change made without knowledge of the change before it: a snapshot cut
+	// between them is followed by the replay of a concurrent change.
+	mode := zzvsym.IntRange("mode", 0, 3)
+	zzvsym.Assume(mode != 2 || zzvsym.Tier() > 0)
 	vSmallAlphabet = mode == 2
 	vEdit(a, "a0", typ, 10)
-	if mode != 1 {
+	if mode == 3 {
+		vEdit(b, "b0", typ, 20)
+	} else if mode != 1 {
 		if zzvsym.IntRange("syncA0", 0, 1) == 1 {
 			s.sync(0, a)
 			s.sync(1, b)
@@ -137,7 +143,7 @@ func VerifR3SnapshotVsReplay() {
 	}
 	zzvsym.Assert(full.Marshal() == a.Marshal(), "server-rebuild-equals-clients")
 	// later edits on top of the snapshot-fed replica, concurrent with a change-fed one
-	if mode >= 1 {
+	if mode == 1 || mode == 2 {
 		vEdit(c, "s0", typ, 30)
 	}
 	if mode == 2 {
